@@ -2,6 +2,7 @@ package checks
 
 import (
 	"bytes"
+	"encoding/base64"
 	"encoding/json"
 	"fmt"
 	"net/http"
@@ -12,6 +13,8 @@ import (
 	"strings"
 	"sync"
 
+	"github.com/corestario/kyber/encrypt/ecies"
+	"github.com/corestario/kyber/pairing/bls12381"
 	"github.com/labstack/echo/v4"
 
 	"github.com/lidofinance/dc4bc/airgapped"
@@ -104,6 +107,43 @@ func c18Airgapped(r *kit.Run, rec *world.Recording, tier string, classes map[str
 			for _, m := range mut.Mutants(bz, 2) {
 				jobs = append(jobs, job{i, k, m, string(o.Type)})
 			}
+		}
+	}
+	// mutations INSIDE the encrypted deals addressed to the machine (what a malicious dealer,
+	// who can encrypt anything to the victim's key, controls)
+	for _, i := range machines {
+		o := opsOf[i][2] // the responses step takes the deals as payload
+		var entries []map[string]interface{}
+		if json.Unmarshal(o.Payload, &entries) != nil {
+			r.Infra("deals payload of machine %d does not parse", i)
+		}
+		base := bls12381.NewBLS12381Suite(nil)
+		sec := rec.W.Airs[i].M.VerifSecKey()
+		pub := rec.W.Airs[i].M.GetPubKey()
+		for ei := range entries {
+			ctB64, _ := entries[ei]["DkgDeal"].(string)
+			ct, err := base64.StdEncoding.DecodeString(ctB64)
+			if err != nil || string(ct) == "self-confirm" {
+				continue
+			}
+			plain, err := ecies.Decrypt(base, sec, ct, base.Hash)
+			if err != nil {
+				continue
+			}
+			for _, m := range mut.Mutants(plain, 1) {
+				enc, err := ecies.Encrypt(base, pub, m.Doc, base.Hash)
+				if err != nil {
+					continue
+				}
+				var cp []map[string]interface{}
+				_ = json.Unmarshal(o.Payload, &cp)
+				cp[ei]["DkgDeal"] = base64.StdEncoding.EncodeToString(enc)
+				o2 := o
+				o2.Payload, _ = json.Marshal(cp)
+				bz, _ := json.Marshal(o2)
+				jobs = append(jobs, job{i, 2, mut.Mutant{Path: ".Payload->b64[].DkgDeal->decrypted" + m.Path, Kind: m.Kind, Doc: bz}, string(o.Type)})
+			}
+			break // one dealer's deal per machine is enough (they have the same shape)
 		}
 	}
 	var mu sync.Mutex
